@@ -1747,15 +1747,19 @@ class sptensor:
             shapeArray = np.array(self.shape)
             if not np.array_equal(factor.shape, shapeArray[dims]):
                 assert False, "Size mismatch in scale"
+            if self.nnz == 0:
+                return self.copy()
             return ttb.sptensor(
                 self.subs,
-                self.vals * factor[self.subs[:, dims]][:, None],
+                self.vals * np.reshape(factor[self.subs[:, dims]], (-1, 1)),
                 self.shape,
             )
         if isinstance(factor, ttb.sptensor):
             shapeArray = np.array(self.shape)
             if not np.array_equal(factor.shape, shapeArray[dims]):
                 assert False, "Size mismatch in scale"
+            if self.nnz == 0:
+                return self.copy()
             return ttb.sptensor(
                 self.subs, self.vals * factor[self.subs[:, dims]], self.shape
             )
@@ -1763,6 +1767,8 @@ class sptensor:
             shapeArray = np.array(self.shape)
             if factor.shape[0] != shapeArray[dims]:
                 assert False, "Size mismatch in scale"
+            if self.nnz == 0:
+                return self.copy()
             return ttb.sptensor(
                 self.subs,
                 self.vals * factor[self.subs[:, dims].transpose()[0]][:, None],
